@@ -38,7 +38,7 @@ def run():
         rep.add(Ob(id="cxx.translate", status="unknown", backend="clang", detail=str(e)))
         return rep
     sections_parallel(rep, [("helpers", C10._helpers), ("copies", C10._copies), ("enum", C10._enum), ("fill", C10._fill), ("lemmas", C10._lemmas),
-                            ("bins", C10._bins), ("query", C10._query), ("matches", _matches), ("matches_simple", _matches_simple)])
+                            ("bins", C10._bins), ("query", C10._query), ("matches", _matches), ("matches_simple", _matches_simple)], jobs=12)
     return rep
 
 
